@@ -70,6 +70,13 @@ claim("C18",
       "Partial: crashes inside template code not modelled (fmt calls, the rest of the generators, go/types) are only observed, not proved absent; the proof covers the mechanisms named in the property's anchors.",
       "Coq proof (totality of modelled mechanisms) + outcome-class / name correspondence + stage-wise panic oracle", "DESIGN.md §5 C18")
 
+claim("C07",
+      "Coq theorems: each kind of map-range loop found in gomacro (merge of distinct keys, independent per-binding update, collect-then-sort, first hit of a unique match, Implements back-links) gives the same result for every permutation of the bindings, "
+      "and (C19) the assembled text is independent of declaration order. Tie: the set of map-range sites, rand/time.Now/%p uses is re-inventoried from /repo with go/types on every run and must equal the model's site table (each site classified into a proved kind); "
+      "dynamically every target is generated repeatedly in-process (Go re-randomises each range) and in 3 fresh processes, and all texts and Dart file sets must coincide.",
+      "Trusted: the classification of each site into its kind (read from the code, table in Model/MapOrder.v); go/packages returning the same packages in every process; the inventory tool.",
+      "Coq proof (permutation invariance per site kind) + static site inventory reflected in Coq + repeated-run hash oracle", "DESIGN.md §5 C07")
+
 NOT_YET = "check not built yet in this round (planned, see DESIGN.md §6)"
 
 checks, na = [], []
